@@ -492,4 +492,61 @@ mod sbs_rows {
     unified_harness!(c05_unified_line_minus, 0);
     unified_harness!(c05_unified_line_zero, 1);
     unified_harness!(c05_unified_line_plus, 2);
+
+    // ---- unified view, background filled with spaces up to the terminal width
+    // (`--line-fill-method spaces`): the number of spaces is computed from the terminal width and
+    // the measured width of the painted line; a line wider than the terminal must not underflow
+    // (C03: "a styled context line wider than the terminal").
+    fn stub_fill_spaces<'p>(_d: &[(Style, &str)], _h: Option<bool>, _s: &State, _b: BgShouldFill, _c: &Config) -> (Option<BgFillMethod>, Style)
+    where
+        'p: 'p,
+    {
+        (Some(BgFillMethod::Spaces), Style::new())
+    }
+    // measured width of the painted line: any value (the ANSI iterator is out of reach); the
+    // harness chooses it through the scratch field `max_syntax_length`... which the unified monitor
+    // also uses, so this harness has its own monitor-free stub of the number gutter
+    static WIDTH_HINT: usize = 0;
+    fn stub_measure(_s: &str) -> usize {
+        let _ = WIDTH_HINT;
+        kani::any()
+    }
+    fn stub_plain<'a>(_d: &'a LineNumbersData, _panel: Option<PanelSide>, _styles: MinusPlus<Style>, _nums: MinusPlus<Option<usize>>, _c: &'a Config) -> Vec<ansi_term::ANSIGenericString<'a, str>> {
+        Vec::new()
+    }
+
+    #[kani::proof]
+    #[kani::unwind(4)]
+    #[kani::stub(crate::features::line_numbers::format_and_paint_line_numbers, stub_plain)]
+    #[kani::stub(crate::paint::superimpose_style_sections, stub_superimpose)]
+    #[kani::stub(crate::paint::Painter::get_should_right_fill_background_color_and_fill_style, stub_fill_spaces)]
+    #[kani::stub(crate::ansi::measure_text_width, stub_measure)]
+    #[kani::stub(<State as std::clone::Clone>::clone, stub_state_clone)]
+    fn c03_unified_line_fill_spaces() {
+        let mut cfg_mem = MaybeUninit::<Config>::uninit();
+        let config = cfg(&mut cfg_mem);
+        let term: usize = kani::any();
+        kani::assume(term <= 4); // the spaces are really allocated: keep the count tiny; the measured width is any usize
+        unsafe {
+            let p = config as *const Config as *mut Config;
+            addr_of_mut!((*p).side_by_side).write(false);
+            addr_of_mut!((*p).line_numbers).write(true);
+            addr_of_mut!((*p).zero_style).write(Style::new());
+            addr_of_mut!((*p).available_terminal_width).write(term);
+        }
+        let lines: Vec<(String, State)> = vec![(String::new(), State::HunkZero(DiffType::Unified, None))];
+        let syn: Vec<LineSections<SyntectStyle>> = vec![Vec::new()];
+        let dif: Vec<LineSections<Style>> = vec![Vec::new()];
+        let mut data = LineNumbersData::default();
+        let mut out = String::new();
+        let mut d = Some(&mut data);
+        Painter::paint_lines(&lines, &syn, &dif, &[false], &mut out, config, &mut d, None, BgShouldFill::With(BgFillMethod::Spaces));
+        assert!(out.len() <= term + 1, "at most terminal-width spaces and the newline are emitted for an empty line");
+        kani::cover!(out.len() == 1, "nothing to fill (line at least as wide as the terminal)");
+        kani::cover!(out.len() == 5, "four spaces filled");
+        kani::cover!(true, "end of harness reached");
+        std::mem::forget(data);
+        std::mem::forget(out);
+        std::mem::forget(lines);
+    }
 }
